@@ -251,6 +251,30 @@ impl Exec {
                     Err(_) => self.emit(line, "PANIC"),
                 }
             }
+            ["ri", o, n] => {
+                let (Some(o), Ok(n)) = (parse_order(o), n.parse::<u64>()) else { return false };
+                match catch_unwind(AssertUnwindSafe(|| o.refresh_iceberg(n))) {
+                    Ok((r, used)) => {
+                        self.emit(line, format!("ri {} used={}", show_order(&r), used));
+                        self.emit(format!("judge.C05r {} {} {} {}", show_order(&o), n, show_order(&r), used), "J C05 ok");
+                    }
+                    Err(_) => self.emit(line, "PANIC"),
+                }
+            }
+            ["tf", o, now, close] => {
+                let (Some(o), Ok(now)) = (parse_order(o), now.parse::<u64>()) else { return false };
+                let close: Option<u64> = if *close == "-" { None } else { match close.parse::<u64>() { Ok(c) => Some(c), Err(_) => return false } };
+                match catch_unwind(AssertUnwindSafe(|| {
+                    let t = o.time_in_force();
+                    format!(
+                        "tf imm={} fok={} po={} hasexp={} exp={}",
+                        o.is_immediate(), o.is_fill_or_kill(), o.is_post_only(), t.has_expiry(), t.is_expired(now, close)
+                    )
+                })) {
+                    Ok(r) => self.emit(line, r),
+                    Err(_) => self.emit(line, "PANIC"),
+                }
+            }
             ["atx", q, qs @ ..] => {
                 let Ok(q) = q.parse::<u64>() else { return false };
                 let mut r = MatchResult::new(OrderId::from_u64(0), q);
